@@ -140,6 +140,7 @@ theorem act_no_panic (o : Options) {s : LeafSt} {a : DataType} (hs : s ∈ leafS
   | ok _ => rfl
   | error e => cases e with
     | err _ => rfl
+    | errCtx _ _ => rfl
     | panic _ => rw [h] at hr; cases hr
 
 /-- `mark_nullable` (what `None` / `Some` do) commutes with absorbing a type -/
